@@ -2647,7 +2647,7 @@ def rest_array_from_rest_list(
 
     # fields for time signature
     if time_signature_map is not None:
-        fields += [("ts_beats", "i4"), ("ts_beat_type", "i4")]
+        fields += [("ts_beats", "i4"), ("ts_beat_type", "i4"), ("ts_mus_beats", "i4")]
 
     # fields for metrical position
     if metrical_position_map is not None:
@@ -2708,9 +2708,9 @@ def rest_array_from_rest_list(
             rest_info += (fifths, mode)
 
         if time_signature_map is not None:
-            beats, beat_type = time_signature_map(rest.start.t)
+            beats, beat_type, mus_beats = time_signature_map(rest.start.t)
 
-            rest_info += (beats, beat_type)
+            rest_info += (beats, beat_type, mus_beats)
 
         if metrical_position_map is not None:
             rel_onset_div, tot_measure_div = metrical_position_map(rest.start.t)
